@@ -181,6 +181,34 @@ MUTANTS = [
  ('C07-5', 'C07', K + 'VectUtils.py',
   "    dist = scal(vdiff(pl_pt, point), normal) / scal(direction, normal)\n    return vsum(point, rescale(dist, direction))",
   "    dist = scal(vdiff(pl_pt, point), normal) / scal(normal, normal)\n    return vsum(point, rescale(dist, normal))"),
+ # ---- C08
+ ('C08-1', 'C08', K + 'Volume/VolumeT4.py',
+  "            str_params.extend((self.ops[0], len(self.ops[1])))",
+  "            str_params.extend((self.ops[0], len(self.ops[1]) + (1 if len(self.ops[1]) > 2 else 0)))"),
+ ('C08-2', 'C08', K + 'Volume/ConstructVolumeT4.py',
+  "    unused = fictives - used\n",
+  "    unused = (fictives - used) | set(k for k in fictives & used if k % 7 == 3)\n"),
+ ('C08-3', 'C08', K + 'Surface/Duplicates.py',
+  "            new_minuses = set(renumbering[s] for s in volu.minuses)",
+  "            new_minuses = set(volu.minuses)"),
+ ('C08-4', 'C08', K + 'GeomComp/ConstructGeomCompT4.py',
+  "        dic_partialGeomComp[materialName].append(key)",
+  "        if key % 5 != 2:\n            dic_partialGeomComp[materialName].append(key)"),
+ ('C08-5', 'C08', K + 'Volume/CellConversion.py',
+  "            if any(arg_id is None for arg_id in arg_ids):\n                # one of the operands is empty, and so is the intersection\n                return None\n",
+  ""),
+ ('C08-6', 'C08', K + 'FileHandlers/Writer/WriteT4BoundCond.py',
+  "        if key in surf_used and entry not in bound_conds:",
+  "        if entry not in bound_conds:"),
+ ('C08-7', 'C08', K + 'FileHandlers/Writer/WriteT4Composition.py',
+  "    ofile.write(str(n_compos + 1) + \"\\n\")  # +1 from the m0 (void) composition",
+  "    ofile.write(str(n_compos) + \"\\n\")"),
+ ('C08-8', 'C08', K + 'Volume/ConstructVolumeT4.py',
+  "            val.pluses = set([union_ids[0]])\n            val.minuses = set([union_ids[1]])",
+  "            val.pluses = set([union_ids[0]])\n            val.minuses = set([union_ids[0]])"),
+ ('C08-9', 'C08', K + 'FileHandlers/Writer/WriteT4Geometry.py',
+  "        union_ids = tuple(renumber[surf_id] for surf_id in union_ids)\n",
+  ""),
 ]
 
 
